@@ -301,6 +301,11 @@ def verify_contract(c, reg, timeout_ms=QUICK_TIMEOUT_MS, max_paths=4000, want_sm
                     break
             name = '%s#raises[%s]' % (c.key, type(exc).__name__)
             info = {'exception': '%s: %s' % (type(exc).__name__, exc), 'implicit': outcome.detail.implicit}
+            rp = {}
+            for pid, (ecls, pfn) in c.raise_pins.items():
+                if isinstance(exc, ecls):
+                    rp[pid] = truth_term(ctx, call_by_name(spec_ip, pfn, penv)) if callable(pfn) else bool(pfn)
+            info['pins'] = rp
             if cond_fn is None:
                 ctx.oblige(name, 'raises', False, info)
             else:
@@ -576,7 +581,7 @@ def discharge(ob, ctx, c, timeout_ms, witnesses=None):
             if cex.get('confirmed') or _witness_fails(c, pid, witnesses):
                 ob.status = 'known:' + pid
                 return
-    if not cex.get('confirmed') and ctx.ufs:
+    if not cex.get('confirmed') and (ctx.ufs or getattr(ctx, 'float_roundings', 0)):
         ob.status = 'abstract-cex'      # counterexample depends on an uninterpreted function: decide transparently
         return
     ob.status = 'failed'
@@ -725,6 +730,13 @@ def replay_native(c, conc, warmup=None, rng=None):
         if allowed is None:
             rep['confirmed'] = True
             rep['expected'] = 'no exception under the precondition'
+            for pid, (ecls, pfn) in c.raise_pins.items():
+                try:
+                    if isinstance(exc, ecls) and (bool(native_by_name(pfn, penv)) if callable(pfn) else bool(pfn)):
+                        rep['pin'] = pid
+                        break
+                except Exception:
+                    pass
         else:
             ok = bool(native_by_name(allowed, penv)) if callable(allowed) else bool(allowed)
             rep['confirmed'] = not ok
